@@ -4,7 +4,7 @@
    generation, validated against the wheel by the correspondence check on every run).
    Spec side: Sem.eval (arithmetic truth function), Sem.sat (row b <= Σ coef * x(id)),
    Sem.extend (leaf assignment extended with each sub-proposition's evaluated truth value). *)
-Require Import Puan.Base Puan.Plog Puan.Sem Puan.EncodeFacts.
+Require Import Puan.Base Puan.Plog Puan.Sem Puan.EncodeFacts Puan.Errors Puan.ErrorsSpec Puan.Validated.
 Open Scope string_scope.
 
 (* Validated model (ids have single definitions, leaf ids apart from sub-proposition ids — both
@@ -18,6 +18,18 @@ Theorem C01_encoding_agrees :
     Forall (sat (extend env m)) (encode false m).
 Proof. exact encode_agrees. Qed.
 Print Assumptions C01_encoding_agrees.
+
+(* the same, stated from validation itself: errors() returned nothing (Errors.errors2, the model of
+   AtLeast.errors(); C10), outside the hash-collision findings D4 / D12, no leaf refers to a
+   sub-proposition by id, and occurrences of an id agree on whether it was generated *)
+Theorem C01_validated :
+  forall (env : ident -> Z) (m : prop),
+    errors2 m = [] -> no_bounds_hash_collision m -> no_value_hash_collision m ->
+    leaves_apart m -> gen_coherent m -> plain_inb env m -> is_var m = false ->
+    (Forall (sat (extend env m)) (encode true m) <-> eval env m = 1) /\
+    Forall (sat (extend env m)) (encode false m).
+Proof. intros env m He Hb Hv Hla Hgc. exact (validated_encoding_agrees m (conj He (conj Hb Hv)) Hla Hgc env). Qed.
+Print Assumptions C01_validated.
 
 (* the same two facts for ANY column assignment that carries the evaluated truth values
    (no validity hypothesis at all: shared and repeated nodes are covered occurrence by occurrence) *)
